@@ -228,7 +228,11 @@ CHECKS = {
                      "the sizes/CRCs/timestamps, the real reader reports the names, kinds, sizes, digests, times, attributes and "
                      "folder the format assigns, and extractall feeds every member exactly its byte range of its folder's decoded "
                      "stream, read from where the packed stream lies - to a factory, by path through the thread-parallel branch "
-                     "(sequential stand-in, one schedule), and to a directory on the filesystem model incl. the utime/chmod post-pass.",
+                     "(sequential stand-in, one schedule), and to a directory on the filesystem model incl. the utime/chmod post-pass. "
+                     "(B) differential on section bytes: every byte string of N bytes (and fixed prefixes with free tails reaching "
+                     "the digest vectors) through PackInfo/UnpackInfo/SubstreamsInfo._read and through the reference parser, both "
+                     "interpreted on the same symbolic bytes: what the reference accepts, py7zr accepts with the same meaning and "
+                     "the same number of bytes consumed.",
                 note=RD_NOTE),
     "C07": dict(engine=B, ref="DESIGN.md §3 (C07)",
                 technique="bounded symbolic execution of the real write path (writestr/write/close, Header.write, SignatureHeader) "
